@@ -45,7 +45,7 @@ def bc_for(rng, g, cls, allow_periodic=True, positive=False):
     return spec, dvals
 
 
-def flow_for(rng, g, m, spec, fams=('none', 'uniform', 'radial', 'stream-walls', 'stream-open', 'stream-walls', 'axis', 'axis')):
+def flow_for(rng, g, m, spec, fams=('none', 'uniform', 'radial', 'stream-walls', 'stream-open', 'stream-walls', 'axis', 'axis', 'uniform-int')):
     fam = str(rng.choice(list(fams)))
     per = spec['periodic']
     u = None
@@ -57,6 +57,11 @@ def flow_for(rng, g, m, spec, fams=('none', 'uniform', 'radial', 'stream-walls',
         u = ops.stream_flow(rng, g, periodic_axes=per, amp=10 ** rng.uniform(-1, 1), walls=fam.endswith('walls'))
     elif fam == 'axis':
         u, _k = ops.axis_flow(rng, g)
+    elif fam == 'uniform-int':
+        # uniform Cartesian flow with whole-number components stored in integer arrays (u.xvalue = np.array([1, 1, 1, ...]))
+        if g.cls in ('Grid1D', 'Grid2D', 'Grid3D'):
+            dt_ = rng.choice([np.int64, np.int32])
+            u = [np.full(g.face_shape(k), int(rng.integers(-3, 4)), dtype=dt_) for k in range(g.nd)]
     if u is None:
         fam = 'none'
         u = [np.zeros(g.face_shape(k)) for k in range(g.nd)]
@@ -100,10 +105,11 @@ def run_case(case):
     faces, meta = gen.gen_grid(rng, cls, nmin=1, nmax=case.get('nmax', 6 if nd < 3 else 4), family=fam, n=n)
     g = Geom(cls, faces)
     m = gen.build_mesh(pf, cls, faces)
-    spec, dvals = bc_for(rng, g, cls, positive=thin)
+    spec, dvals = bc_for(rng, g, cls, positive=thin or bool(case.get('intflow')))
     cov, maxerr, bad = {}, {}, []
-    u, flowfam = flow_for(rng, g, m, spec, fams=('uniform', 'axis', 'radial', 'axis') if thin else
-                          ('none', 'uniform', 'radial', 'stream-walls', 'stream-open', 'stream-walls', 'axis', 'axis'))
+    intflow = bool(case.get('intflow'))
+    u, flowfam = flow_for(rng, g, m, spec, fams=('uniform-int',) if intflow else ('uniform', 'axis', 'radial', 'axis', 'uniform-int') if thin else
+                          ('none', 'uniform', 'radial', 'stream-walls', 'stream-open', 'stream-walls', 'axis', 'axis', 'uniform-int'))
     if thin:
         cov['thin_grid'] = 1
     dive = ops.discrete_div_error(m, g, u)
@@ -117,7 +123,7 @@ def run_case(case):
         tset = 'upwind'
     use_beta = rng.random() < 0.35
     beta = np.abs(rng.normal(0, 1, g.dims)) * 10 ** rng.uniform(-2, 2) if use_beta else None
-    ffam = str(rng.choice(['random', 'step', 'spike', 'positive', 'poszeros'])) if not thin else str(rng.choice(['positive', 'posconst']))
+    ffam = str(rng.choice(['random', 'step', 'spike', 'positive', 'poszeros'])) if not (thin or case.get('intflow')) else str(rng.choice(['positive', 'posconst']))
     if ffam == 'poszeros':
         vals = np.abs(rng.normal(0, 1, g.dims))
         vals[rng.random(g.dims) < 0.5] = 0.0
@@ -139,6 +145,14 @@ def run_case(case):
             beta = beta / Tu
         cov['time_unit:%s' % ('small' if Tu < 1 else 'large')] = 1
     BC = gen.make_bc(pf, m, g, spec)
+    for k_ in spec['periodic']:
+        # a periodic axis declared by the flag of one side only (either flag suffices; the other side keeps whatever a, b, c it had)
+        st_ = str(rng.choice(['both', 'low', 'high']))
+        if st_ == 'low':
+            getattr(BC, SIDES[k_][1]).periodic = False
+        elif st_ == 'high':
+            getattr(BC, SIDES[k_][0]).periodic = False
+        cov['periodic_flag:' + st_] = cov.get('periodic_flag:' + st_, 0) + 1
     phi = pf.CellVariable(m, vals.copy(), BC)
     Df, uf = gen.facevar(pf, m, D), gen.facevar(pf, m, u)
     edit_bcs = bool(rng.random() < 0.5)
@@ -282,6 +296,9 @@ def plan(tier, seed):
     for ci, cls in enumerate(CLASSES):
         cases = [{'cls': cls, 'seed': [seed, 7, ci, i], 'family': gen.FAMILIES[i % 5] if i % 3 else None} for i in range(per)]
         cases += [{'cls': cls, 'seed': [seed, 7, ci, 200000 + i], 'family': gen.FAMILIES[i % 5] if i % 2 else None, 'tunit': True} for i in range(per // 4)]
+        if cls in ('Grid1D', 'Grid2D', 'Grid3D'):
+            cases += [{'cls': cls, 'seed': [seed, 7, ci, 300000 + i], 'family': gen.FAMILIES[i % 5] if i % 2 else None, 'intflow': True}
+                      for i in range(per // (2 if cls == 'Grid1D' else 6))]
         if NDIM[cls] > 1:
             cases += [{'cls': cls, 'seed': [seed, 7, ci, 100000 + i], 'family': gen.FAMILIES[i % 5] if i % 2 else None, 'thin': True} for i in range(per // 3)]
         step = 10 if NDIM[cls] == 3 else 30
@@ -296,7 +313,7 @@ def floors(agg, tier):
         if agg['cov'].get('cases:' + cls, 0) < 20:
             out.append('cases:%s < 20' % cls)
     for k, need in (('bc:D', 50), ('bc:N0', 50), ('bc:periodic', 20), ('flow:uniform', 3), ('flow:radial', 3), ('flow:stream-walls', 10),
-                    ('flow:stream-open', 5), ('flow:axis', 10), ('terms:D', 10), ('terms:D+upwind', 10), ('extremal_dt_steps', 50), ('steps', 300), ('thin_grid', 50), ('time_unit:small', 30), ('time_unit:large', 20), ('value_edit_between_steps', 50),
+                    ('flow:stream-open', 5), ('flow:axis', 10), ('terms:D', 10), ('terms:D+upwind', 10), ('extremal_dt_steps', 50), ('steps', 300), ('thin_grid', 50), ('flow:uniform-int', 5), ('periodic_flag:low', 10), ('periodic_flag:high', 10), ('time_unit:small', 30), ('time_unit:large', 20), ('value_edit_between_steps', 50),
                     ('bc_edit_between_steps:left', 5), ('bc_edit_between_steps:right', 5), ('bc_edit_between_steps:bottom', 5), ('bc_edit_between_steps:top', 5),
                     ('bc_edit_between_steps:back', 3), ('bc_edit_between_steps:front', 3)):
         if agg['cov'].get(k, 0) < need:
